@@ -24,9 +24,39 @@ import time
 from vf import sftpbench, sftpfaults
 
 
+_content_cache = {}
+
+
+def first_diff(a, b):
+    """Index of the first differing byte (min length if one is a prefix)."""
+    lo, hi = 0, min(len(a), len(b))
+    if a[:hi] == b[:hi]:
+        return hi
+    while lo < hi:
+        mid = (lo + hi + 1) // 2
+        if a[:mid] == b[:mid]:
+            lo = mid
+        else:
+            hi = mid - 1
+    return lo
+
+
 def content(size, cseed):
-    """Position-revealing bytes: a 4-hex-digit counter every 8 bytes plus seeded filler."""
+    """Position-revealing bytes: a 6-hex-digit counter every 8 bytes plus seeded filler."""
+    key = (size, cseed)
+    if key not in _content_cache:
+        if len(_content_cache) > 64:
+            _content_cache.clear()
+        _content_cache[key] = _content(size, cseed)
+    return _content_cache[key]
+
+
+def _content(size, cseed):
     rnd = random.Random(cseed)
+    if size > 4096:
+        # one seeded 4 KiB block pattern, then stamp the counters with bytes-join (fast)
+        filler = rnd.randbytes(2)
+        return b"".join(b"%06x" % i + filler for i in range((size + 7) // 8))[:size]
     filler = rnd.randbytes(64)
     out = bytearray()
     i = 0
@@ -171,6 +201,59 @@ def _in_pipe_recv(frame):
     return False
 
 
+def watch(wire, w, before, exclude, is_done, cap, progress=lambda: None):
+    """Watch worker thread `w` until `is_done()`.  Returns None when it finished,
+    dict(status="hang", ...) on the blocked-at-quiescence evidence described in
+    the module docstring, dict(status="watchdog", ...) when `cap` seconds passed
+    without it (inconclusive)."""
+    t0 = time.monotonic()
+    stable = []
+    nap = 0.002
+    while not is_done():
+        w.join(nap)  # returns at once when the worker ends
+        nap = min(0.02, nap * 1.5)
+        if is_done():
+            break
+        now = time.monotonic()
+        if now - t0 < 0.05:
+            continue
+        fr = sys._current_frames()
+        wf = fr.get(w.ident)
+        if wf is None:
+            continue
+        others = [t for t in threading.enumerate()
+                  if t not in before and t is not w and t not in exclude and t.is_alive()]
+        reqs, resps = len(wire.requests()), len(wire.responses())
+        with wire.s2c.cv:
+            pending = len(wire.s2c.buf) + len(wire.s2c.held)
+        cond = (reqs == resps and pending == 0 and _in_pipe_recv(wf))
+        osig = []
+        for t in others:
+            tf = fr.get(t.ident)
+            if tf is None:
+                continue
+            nm = _innermost(tf)
+            osig.append(nm)
+            if nm != ("_prefetch_thread", "sftp_file.py"):
+                cond = False
+        snap_ = (reqs, resps, tuple(_paramiko_chain(wf)), tuple(osig), progress())
+        if cond:
+            if stable and stable[-1][1] != snap_:
+                stable = []
+            stable.append((now, snap_))
+            if len(stable) >= 4 and now - stable[0][0] >= 0.6:
+                return dict(status="hang", chain=list(snap_[2]), requests=reqs, responses=resps,
+                            throttled_threads=len(osig), progress=snap_[4])
+        else:
+            stable = []
+        if now - t0 > cap:
+            import traceback
+
+            return dict(status="watchdog", chain=_paramiko_chain(wf), requests=reqs, responses=resps,
+                        stack="".join(traceback.format_stack(wf))[-1500:])
+    return None
+
+
 class CaseRun:
     def __init__(self, case, root=None, cap=90.0):
         self.case = case
@@ -281,9 +364,20 @@ class CaseRun:
                 self.started.append(len(chunks))
                 return real_start(chunks, *a, **kw)
 
+            real_chk = f._check_exception
+            self.saved_raised = []
+
+            def achk():
+                try:
+                    return real_chk()
+                except BaseException as e:
+                    self.saved_raised.append(type(e).__name__)
+                    raise
+
             b.client._async_request = areq
             f._async_response = aresp
             f._start_prefetch = astart
+            f._check_exception = achk
             stop_pump = threading.Event()
             if case["gated"]:
                 wire.hold_replies()
@@ -300,53 +394,15 @@ class CaseRun:
             self.done = False
             w = threading.Thread(target=self._worker, daemon=True, name="vf-c28-worker")
             w.start()
-            t0 = time.monotonic()
-            stable = []
-            while not self.done:
-                time.sleep(0.02)
-                if self.done:
-                    break
-                now = time.monotonic()
-                fr = sys._current_frames()
-                wf = fr.get(w.ident)
-                if wf is None:
-                    continue
-                others = [t for t in threading.enumerate()
-                          if t not in before and t is not w and t is not b.server_thread and t is not pump and t.is_alive()]
-                reqs, resps = len(wire.requests()), len(wire.responses())
-                with wire.s2c.cv:
-                    pending = len(wire.s2c.buf) + len(wire.s2c.held)
-                cond = (reqs == resps and pending == 0 and _in_pipe_recv(wf))
-                osig = []
-                for t in others:
-                    tf = fr.get(t.ident)
-                    if tf is None:
-                        continue
-                    nm = _innermost(tf)
-                    osig.append(nm)
-                    if nm != ("_prefetch_thread", "sftp_file.py"):
-                        cond = False
-                snap_ = (reqs, resps, tuple(_paramiko_chain(wf)), tuple(osig), self.cur)
-                if cond:
-                    if stable and stable[-1][1] != snap_:
-                        stable = []
-                    stable.append((now, snap_))
-                    if len(stable) >= 4 and now - stable[0][0] >= 0.6:
-                        out = dict(status="hang", chain=list(snap_[2]), requests=reqs, responses=resps,
-                                   throttled_threads=len(osig), at_step=self.cur,
-                                   state=dict(extents=len(f._prefetch_extents), done=f._prefetch_done,
-                                              prefetching=f._prefetching,
-                                              saved=type(f._saved_exception).__name__ if f._saved_exception else None,
-                                              buffers=len(f._prefetch_data)))
-                        break
-                else:
-                    stable = []
-                if now - t0 > self.cap:
-                    import traceback
-
-                    out = dict(status="watchdog", chain=_paramiko_chain(wf), requests=reqs, responses=resps,
-                               stack="".join(traceback.format_stack(wf))[-1500:])
-                    break
+            hang = watch(wire, w, before, (b.server_thread, pump), lambda: self.done, self.cap, lambda: self.cur)
+            if hang is not None:
+                out = hang
+                if out["status"] == "hang":
+                    out["at_step"] = out.pop("progress")
+                    out["state"] = dict(extents=len(f._prefetch_extents), done=f._prefetch_done,
+                                        prefetching=f._prefetching,
+                                        saved=type(f._saved_exception).__name__ if f._saved_exception else None,
+                                        buffers=len(f._prefetch_data))
             stop_pump.set()
             # wire facts (after the open)
             with wire.plock:
@@ -370,6 +426,7 @@ class CaseRun:
                         short_inside += 1
             out.update(read_requests=len(reads), prefetch_requests=len(self.prefetch_ids),
                        prefetch_starts=list(self.started), status_replies_to_reads=status_to_read,
+                       saved_exceptions_raised=list(self.saved_raised),
                        short_replies_inside_file=short_inside, results=self.results)
         finally:
             try:
